@@ -16,6 +16,7 @@ mod dml;
 mod hist;
 mod c21;
 mod txn;
+mod c32;
 mod c33;
 mod c34;
 
@@ -38,6 +39,7 @@ macro_rules! dispatch {
             "C13" => $f(txn::C13, $($extra),*),
             "C14" => $f(txn::C14, $($extra),*),
             "C15" => $f(c09_15::C15, $($extra),*),
+            "C32" => $f(c32::C32, $($extra),*),
             "C33" => $f(c33::C33, $($extra),*),
             "C34" => $f(c34::C34, $($extra),*),
             "C21" => $f(c21::C21, $($extra),*),
